@@ -24,7 +24,7 @@ def value(rng, key):
     return sep.join(ws)
 
 
-def header(rng, eol, subset=None):
+def header(rng, eol, subset=None, note=None):
     keys = list(FIELDS)
     rng.shuffle(keys)
     if subset is None:
@@ -40,7 +40,7 @@ def header(rng, eol, subset=None):
         if rng.random() < 0.15:
             lines.append("%s* external/cwe/cwe-%d" % (indent, rng.randint(1, 999)))
     lines.append(indent + "*/")
-    if rng.random() < 0.2:
+    if (rng.random() < 0.2) if note is None else note:
         # a one-line comment between the header and the query (a review note); the header's values are '*/'-free and
         # its closing line stands alone, as the property says
         lines.append(rng.choice(["/* reviewed */", "/* TODO tighten */", "/** see above */", "/* FROM here on the query */"]))
